@@ -1,7 +1,7 @@
 #!/bin/sh
 # tools/regress.sh [budget_s] [ids...] - quick check of every (or the given) property against the current /repo; prints one line per check
 B="${1:-30}"; shift
-cd /verif || exit 2
+cd "$(dirname "$0")/.." || exit 2
 IDS="$*"
 [ -z "$IDS" ] && IDS=$(ls props/c[0-9][0-9].py | sed 's/.*c\([0-9][0-9]\).py/C\1/')
 RC=0
